@@ -117,6 +117,105 @@ def corr_intr(n_quick, n_thorough):
     return run
 
 
+def corr_stream(kinds, want_spec=True, go_panic_is_violation=False, rule=''):
+    """kinds: list of (generator kind, n_quick, n_thorough, extra args)"""
+    def run(ctx, chk, broken):
+        vectors = ''
+        for (kind, nq, nt, extra) in kinds:
+            n = nt if ctx.tier == 'thorough' else nq
+            flag = '-per' if kind == 'slots' else '-n'
+            vectors += chk.gen_vectors(kind, ['-seed', str(ctx.seed), flag, str(n)] + list(extra))
+        for (t, op) in slots_from_broken(broken)[:24]:
+            tv = chk.gen_vectors('slots', ['-seed', str(ctx.seed + 7), '-per', '200', '-tables', t, '-ops', op])
+            vectors = re.sub(r'(?m)^(\w+-[0-9a-f]{2}-)', r'\1t', tv) + vectors
+        need_kf = want_spec and any(is_im0_data(l) for l in vectors.splitlines() if l.strip())
+        dis, stats, go = chk.correspond(ctx, vectors, want_spec=want_spec, extra_streams=(('kf',) if need_kf else ()))
+        kf_bad = {vid for (st, vid, v, g, o) in dis if st == 'kf'}
+        out = []
+        for (st, vid, v, g, o) in dis:
+            if st == 'kf':
+                if not is_im0_data(v):
+                    continue              # the kf stream only adds information for mode-0 requests with data
+            d = {'stream': st, 'id': vid, 'vector': v, 'real': g, 'other': o}
+            if st == 'spec' and vid not in kf_bad and is_im0_data(v):
+                d['known'] = 'KF-2' if im0_window_hit(v, o) else 'KF-1'
+            out.append(d)
+        if go_panic_is_violation:
+            byid = {l.split(' ', 1)[0]: l for l in vectors.splitlines() if l.strip()}
+            for vid, g in go.items():
+                if ' panic' in g[:len(vid) + 8]:
+                    out.append({'stream': 'real-panic', 'id': vid, 'vector': byid.get(vid), 'real': g, 'other': None})
+        byid_all = {l.split(' ', 1)[0]: l for l in vectors.splitlines() if l.strip()}
+        ids = [l.split(' ', 1)[0] for l in vectors.splitlines() if l.strip()]
+        classes = {re.sub(r'-?\d+$', '', i) for i in ids}
+        classes |= {(g.split(' RUN', 1)[1], byid_all.get(vid, ' BP -').split(' BP ')[1].split()[0].count(','), g.split(' NLOG ')[1].split()[0])
+                    for vid, g in go.items() if ' RUN' in g and ' NLOG ' in g}
+        cov = {'evaluations': len(ids), 'distinct_nontrivial': len({chk.slot_of(i) for i in ids} - {None}) + len(classes),
+               'rule': rule, 'correspondence': stats}
+        if ids:
+            cov['samples_vectors'] = [vectors.splitlines()[0][:200], vectors.splitlines()[-1][:200]]
+        return out, cov
+    return run
+
+
+def corr_zex(ctx, chk, broken):
+    """search for the concrete exerciser case on which image and Go table differ"""
+    import os
+    rc, out = chk.sh(['lake', 'env', 'lean', '--run', 'Tools/ZexDiff.lean'], cwd=chk.LEAN, timeout=1800)
+    lines = [l for l in out.splitlines() if l.startswith('zexdoc ') or l.startswith('zexall ')]
+    done = [l for l in out.splitlines() if l.startswith('done ')]
+    outl = [{'stream': 'zex', 'id': ' '.join(l.split()[:3]), 'vector': l[:4000], 'real': 'cmd/zexdoc image vs internal/zex table', 'other': None}
+            for l in lines]
+    if not done and not lines and not broken:
+        outl.append({'stream': 'zex', 'id': 'tool', 'vector': out[-2000:], 'real': 'ZexDiff did not run', 'other': None})
+    cov = {'evaluations': 134, 'distinct_nontrivial': 134,
+           'rule': 'every record of both program images (67 + 67) compared with the Go table entry at the same index and with the pinned canonical record; '
+                   'the theorems are kernel evaluations over the whole data, this run of ZexDiff is the search that names the differing case',
+           'correspondence': {'tool': (done[0] if done else 'not run')}}
+    return outl, cov
+
+
+def memio_run(chk, ops):
+    import os
+    from concurrent.futures import ThreadPoolExecutor
+    with ThreadPoolExecutor(max_workers=2) as ex:
+        f1 = ex.submit(chk.sh, [os.path.join(chk.WORK, 'harness'), 'memio'], None, None, 1800, ops)
+        f2 = ex.submit(chk.sh, ['lake', 'env', 'lean', '--run', 'DriverMemIO.lean'], chk.LEAN, None, 1800, ops)
+        go = [l for l in f1.result()[1].splitlines() if l and not l.startswith('WARNING')]
+        le = [l for l in f2.result()[1].splitlines() if l and not l.startswith('WARNING')]
+    return go, le
+
+
+def corr_memio(ctx, chk, broken):
+    """operation sequences on the real DumbMemory/DumbIO/MapMemory vs the hand-written model"""
+    n = 6000 if ctx.tier == 'thorough' else 400
+    ops = chk.gen_vectors('memio', ['-seed', str(ctx.seed), '-n', str(n)])
+    lines = [l for l in ops.splitlines() if l.strip()]
+    go, le = memio_run(chk, ops)
+    out = []
+    if len(go) != len(lines) or len(le) != len(lines):
+        out.append({'stream': 'memio', 'id': 'length', 'vector': f'ops={len(lines)} real={len(go)} model={len(le)}',
+                    'real': (go[-1] if go else None), 'other': (le[-1] if le else None)})
+    start = 0
+    kinds = {}
+    for i, l in enumerate(lines[:min(len(go), len(le))]):
+        if l == 'reset':
+            start = i
+        k = l.split()[0] + ':' + go[i].split()[0]
+        kinds[k] = kinds.get(k, 0) + 1
+        if go[i] != le[i]:
+            seq = lines[start:i + 1]
+            out.append({'stream': 'memio', 'id': f'seq@{start}+{i - start}', 'vector': '\n'.join(seq), 'real': go[i], 'other': le[i], 'kind': 'memio'})
+            if len(out) >= 3:
+                break
+    cov = {'evaluations': len(lines), 'distinct_nontrivial': len(kinds),
+           'rule': 'one evaluation = one operation (new/alias/get/set/put/in/out/clone/clear/equal/dump) applied to the real DumbMemory/DumbIO/MapMemory values and to the model, '
+                   'answers compared line by line; sequences of 20-80 operations over 2-6 variables (slice lengths 0..65536 incl. edges, nil maps, aliases, clones, blocks ending at the slice end, wrapping Puts); '
+                   'distinct = distinct (operation, answer class) pairs hit',
+           'correspondence': {'sequences': n, 'operations': len(lines), 'distribution': dict(sorted(kinds.items()))}}
+    return out, cov
+
+
 PROPS = {
     'C01': {
         'targets': ['Z80.Props.C01'],
@@ -157,6 +256,71 @@ PROPS = {
         'assumptions': ['request types: Type = 0 is NMI, anything else maskable', 'IM 0 / IM 2 requests without data and IM outside {0,1,2} are outside the property; the code\'s behaviour (dropped / never accepted) is recorded in the specification',
                         'mode 0 with supplied bytes: see known findings KF-1, KF-2, KF-3'],
         'explanation': 'Gen.Step with a pending request = abstract interrupt controller (NMI, refused, IM 1, IM 2, empty, bad mode) for every state; pending-request induction; EI/DI/RETN/RETI',
+    },
+    'C05': {
+        'targets': ['Z80.Props.C05'],
+        'count': ALL_OBL + ['Z80/Proofs/Frame.lean', 'Z80/Props/C05.lean'],
+        'correspond': corr_slots(3, 40),
+        'assumptions': ['the ordered bus log (Memory.Get/Set, IO.In/Out with address and value) is part of the model state, so C01 equality covers it',
+                        'the property compares multisets of accesses; the theorems fix the exact order, which implies it'],
+        'explanation': 'bus log of Gen.Step = log of the reference for every state (C01); reference traffic characterised: sequential fetches, untaken forms, RMW, 16-bit wrap, port = C / n, no port access outside I/O instructions (all instructions)',
+    },
+    'C08': {
+        'targets': ['Z80.Props.C08'],
+        'count': ['Z80/Proofs/RunLoop.lean', 'Z80/Props/C08.lean'],
+        'correspond': corr_stream([('run', 1500, 30000, [])], want_spec=True,
+                                  rule='one vector = 1-3 consecutive CPU.Run calls of the real code on a generated terminating register-only program ending in HALT, '
+                                       'breakpoint set in {nil, empty, start PC, HALT address, inside an instruction, random subsets of instruction starts}; '
+                                       'compared with the translated Run loop (Gen.Run_body) and with a hand-written Step-until-stop reference'),
+        'assumptions': ['Run is translated by a dedicated go2lean routine (loop body, statements before the loop, value after the loop); the loop itself is `runLoop` with fuel',
+                        'never cancelled in this property (cancellation: C13)',
+                        'partial: interrupt requests raised from memory/port callbacks during Run are not expressible in the model (callbacks return bytes only); Step honours any pending request (C06)'],
+        'explanation': 'Run = Step repeated until the first Step after which PC is a breakpoint (ErrBreakPoint) or HALT is set (nil); never earlier, at least one Step, HALT discarded on entry, re-Run of a halted CPU is idempotent',
+    },
+    'C12': {
+        'targets': ['Z80.Props.C12'],
+        'count': ALL_OBL + ['Z80/Proofs/Frame.lean', 'Z80/Proofs/Interrupt.lean', 'Z80/Props/C12.lean'],
+        'correspond': corr_stream([('malformed', 3000, 60000, []), ('slots', 1, 8, [])], want_spec=False, go_panic_is_violation=True,
+                                  rule='one vector = 1-6 Steps of the real code from an arbitrary state (any IM, any request type/data, missing IO device / handlers) '
+                                       'plus every opcode slot; a panic of the real code is a violation whatever the model says'),
+        'assumptions': ['user Memory/IO are total functions (the bundled short slices: C15)',
+                        'partial: mode-0 requests with supplied bytes run every decode arm over the overlay memory; that composition is exercised by the malformed stream, not proved (the overlay accessors themselves are proved total)'],
+        'explanation': 'Gen.Step never reaches a panic for every state with user memory and every request outside mode-0-with-data; overlay accessors total for every data length/start/address; unsupported opcodes consumed',
+    },
+    'C13': {
+        'targets': ['Z80.Props.C13'],
+        'count': ['Z80/Proofs/RunLoop.lean', 'Z80/Props/C13.lean'],
+        'correspond': corr_stream([('run', 400, 4000, [])], want_spec=False,
+                                  rule='the Run loop translation is validated on terminating programs (as in C08); cancellation itself is not replayed dynamically'),
+        'assumptions': ['the watcher goroutine and the loop are modelled as two threads over the shared variables {ctx2 cancelled, ctxErr, canceled flag}; the action lists are extracted from the current source by go2lean',
+                        'Go memory model: an atomic load that observes an atomic store orders everything before the store before everything after the load',
+                        'partial: "within a bounded delay" is scheduler-dependent (the flag is checked before every Step; a Step is finite: C12); goroutine accounting and the race detector are runtime facts outside the model'],
+        'explanation': 'cancellation is observed only between Steps (state = whole number of Steps); exhaustive exploration of the two-thread hand-off protocol (closed state set) shows no unordered read of ctxErr and no leaked watcher on any return path',
+    },
+    'C14': {
+        'targets': ['Z80.Props.C14'],
+        'count': ALL_OBL + ['Z80/Proofs/Frame.lean', 'Z80/Props/C14.lean'],
+        'correspond': corr_slots(3, 40),
+        'assumptions': ['DDCB/FDCB forms count three opcode fetches in this project (silicon: two); recorded in Impl.koron.ddcbM1'],
+        'explanation': 'every Step without a pending request advances R by exactly the number of opcode fetches (1/2/3 by prefix) modulo 128 with bit 7 kept, I untouched, except LD I,A / LD R,A; LD A,I / LD A,R flags',
+    },
+    'C17': {
+        'targets': ['Z80.Props.C17'],
+        'count': ['Z80/Props/C17.lean'],
+        'correspond': corr_zex,
+        'assumptions': ['go2lean evaluates the Go table literals with go/types constant evaluation and embeds cmd/zexdoc/*.cim byte for byte (regenerated on every run)',
+                        'the canonical records pinned in lean/Z80/Spec/ZexCanon.lean were extracted once by an independent parser (tools/mkzexcanon.py) from the images of the pinned commit'],
+        'explanation': 'kernel evaluation over the whole finite data: the 67+67 records reached through each image\'s own pointer table equal the Go table entries in order, byte for byte (mask, base, increment, shift, CRC, description), and equal the pinned canonical records',
+    },
+    'C15': {
+        'targets': ['Z80.Props.C15'],
+        'count': ['Z80/Props/C15.lean'],
+        'correspond': corr_memio,
+        'assumptions': ['memio.go is modelled by hand (Z80.Spec.MemIO): Go slices/maps are reference objects on a heap, variables hold handles; tied to the code by the operation-sequence correspondence only',
+                        'DumbMemory.Put outside the slice panics in Go (slice bounds) — outside the property\'s "block lying inside the slice"; the model records it as a panic that changes nothing',
+                        'slices are created with cap = len (a Put may otherwise write into spare capacity)',
+                        'nil MapMemory: reads give 0xC7, writes panic, Equal(nil,nil) is true — recorded in the model; the property speaks about initialised values'],
+        'explanation': 'for EVERY slice length and EVERY history of Set/Put/Out, Get/In returns the value last written or 0 (0 beyond the slice, writes there ignored); MapMemory likewise with 0xC7, wrapping Put, Clear; Clone allocates a fresh object (independence); Equal iff same contents',
     },
     'C16': {
         'targets': ['Z80.Props.C16'],
